@@ -83,6 +83,10 @@ def marginMs : Nat := 1000
 /-- The lifetime assumed when `expires_in` is 0 or absent, in seconds. -/
 def defaultExpirySec : Nat := 60
 
+-- F41: `const maxSeconds = math.MaxInt64 / int64(time.Second)`
+/-- The longest lifetime a token is given, in seconds: what fits into `int64` nanoseconds. -/
+def maxExpirySec : Nat := 9223372036
+
 /-- The fields of `registry` guarded by `registry.mu`, plus the immutable host. -/
 structure HostSt where
   host      : Bytes
@@ -212,8 +216,10 @@ def adoptRefresh (st : HostSt) (refresh : Bytes) : HostSt :=
 /-- `tok.Token`, or `tok.AccessToken` when that is empty. -/
 def pickToken (token access : Bytes) : Bytes := if token = [] then access else token
 
-/-- Lifetime in seconds: `expires_in`, 60 when it is 0 or absent. -/
-def lifeOf (exp : Nat) : Nat := if exp = 0 then defaultExpirySec else exp
+-- F41: `min(…, maxSeconds)` — the number of seconds is clamped before it is multiplied (the lower
+-- clamp does not show here: `expires_in` is a natural number in this model; `TokenDecode.lean` has both)
+/-- Lifetime in seconds: `expires_in`, 60 when it is 0 or absent, at most `maxExpirySec`. -/
+def lifeOf (exp : Nat) : Nat := if exp = 0 then defaultExpirySec else min exp maxExpirySec
 
 /-- The tail of `acquireAccessToken` once the token server's final answer `r` to
 the request for scope `sc` is known: adopt a new refresh token, pick the access
